@@ -10,6 +10,7 @@ use crate::tree::{Node, NodeId, Tree};
 
 thread_local! {
     static SEED: RefCell<Option<StdRng>> = const { RefCell::new(None) };
+    static EXTREME: RefCell<u32> = const { RefCell::new(0) };
 }
 
 /// Seed the thread-local generator used in place of `thread_rng()`.
@@ -17,10 +18,62 @@ pub fn set_seed(seed: u64) {
     SEED.with(|s| *s.borrow_mut() = Some(StdRng::seed_from_u64(seed)));
 }
 
+/// H4: from now on every generator handed out by [`rng`] on this thread replaces a raw draw by an
+/// extreme one (all bits set, or all bits clear) with probability `per_mille`/1000; 0 switches it off.
+/// The extreme raw draws are what drives a sampler to the ends of its support.
+pub fn set_extreme_draws(per_mille: u32) {
+    EXTREME.with(|e| *e.borrow_mut() = per_mille.min(1000));
+}
+
+/// Generator standing in for `thread_rng()`.
+pub struct VerifRng {
+    inner: StdRng,
+    extreme_per_mille: u32,
+}
+
+impl VerifRng {
+    fn extreme(&mut self) -> Option<u64> {
+        if self.extreme_per_mille == 0 {
+            return None;
+        }
+        let r = self.inner.next_u64();
+        if ((r >> 8) % 1000) < self.extreme_per_mille as u64 {
+            Some(if r & 1 == 0 { u64::MAX } else { 0 })
+        } else {
+            None
+        }
+    }
+}
+
+impl RngCore for VerifRng {
+    fn next_u32(&mut self) -> u32 {
+        match self.extreme() {
+            Some(v) => v as u32,
+            None => self.inner.next_u32(),
+        }
+    }
+    fn next_u64(&mut self) -> u64 {
+        match self.extreme() {
+            Some(v) => v,
+            None => self.inner.next_u64(),
+        }
+    }
+    fn fill_bytes(&mut self, dest: &mut [u8]) {
+        match self.extreme() {
+            Some(v) => dest.fill(v as u8),
+            None => self.inner.fill_bytes(dest),
+        }
+    }
+    fn try_fill_bytes(&mut self, dest: &mut [u8]) -> Result<(), rand::Error> {
+        self.fill_bytes(dest);
+        Ok(())
+    }
+}
+
 /// Generator standing in for `thread_rng()`: a fresh `StdRng` split off the seeded
 /// thread-local one (seeded from `PHYLOTREE_VERIF_SEED`, else 0, when `set_seed` was not called).
-pub fn rng() -> StdRng {
-    SEED.with(|s| {
+pub fn rng() -> VerifRng {
+    let inner = SEED.with(|s| {
         let mut guard = s.borrow_mut();
         let base = guard.get_or_insert_with(|| {
             let seed = std::env::var("PHYLOTREE_VERIF_SEED")
@@ -30,7 +83,11 @@ pub fn rng() -> StdRng {
             StdRng::seed_from_u64(seed)
         });
         StdRng::seed_from_u64(base.next_u64())
-    })
+    });
+    VerifRng {
+        inner,
+        extreme_per_mille: EXTREME.with(|e| *e.borrow()),
+    }
 }
 
 /// H2: the crate-private triangular index functions.
